@@ -295,6 +295,9 @@ func (s *LinearState) deleteDependencies(ctx *Context, id string) error {
 			Log(WARN, ctx, "LinearState.deleteDependencies", "loop", id)
 			continue
 		}
+		if !dependsOn(s.Facts[sr.Id].M, id) {
+			continue
+		}
 		if err := s.remHookDependent(ctx, sr.Id); nil != err {
 			return err
 		}
